@@ -41,6 +41,7 @@ def roundtrip(raw):
         with contextlib.redirect_stdout(out), warnings.catch_warnings():
             warnings.simplefilter('ignore')
             d = load(io.BytesIO(raw))
+            d._loaded_sections = dict([(u'', L.loaded_sections(d))] + [(o.folder[1:] + u'/', L.loaded_sections(o)) for o in d.childobjects])
             b = io.BytesIO()
             d.save(b)
         return b.getvalue(), out.getvalue(), None, d
@@ -133,13 +134,13 @@ def classify_diff(d, ctx):
     """signature of one tree difference inside a compared section.  `ctx`: facts about the SOURCE package only."""
     if d['kind'] == 'attr':
         an = tuple(d['attr']); a = d['a']; b = d['b']
-        if an == (L.DRAWNS, 'name') and a is not None and b is not None and not is_ncname(a):
-            return 'draw-name-not-ncname'
+        if an == (L.DRAWNS, 'name') and a is not None and b is not None and (u' ' in a or u':' in a):
+            return 'draw-name-with-blank-or-colon'
         if a is not None and b is not None and ctx['collisions'] and b.lstrip(u'M') == a.lstrip(u'M') and \
                 (a in ctx['collisions'] or a.lstrip(u'M') in ctx['collisions']) and \
                 (an == (L.TEXTNS, 'style-name') or an == (L.STYLENS, 'name')):
             return 'style-name-collision'
-        if a is not None and b is not None and L.ref_attrs().get(an) == 'styleNameRefs' and b == u' '.join(a) :
+        if a is not None and b is not None and an[1] == 'class-names' and len(a) > 1 and b == u' '.join(a):
             return 'class-names-respaced'
     return 'section-changed:' + d['kind']
 
@@ -151,13 +152,11 @@ def compare_section(rep, what, a, b, ctx):
         rep.add(ctx.get('dropped_sig') or 'section-missing', '%s: section missing in the saved package' % what)
         return
     if a[3] and sorted(a[3]) != sorted(b[3]):
-        rep.add('section-element-attributes-dropped', '%s: the section element had attributes %r, saved %r' % (what, a[3], b[3]))
+        rep.add(ctx.get('dropped_sig') or 'section-element-attributes-dropped', '%s: the section element had attributes %r, saved %r' % (what, a[3], b[3]))
     na = L.norm(a); nb = L.norm(b)
     na = ('E', na[1], na[2], [], na[4]); nb = ('E', nb[1], nb[2], [], nb[4])
     for d in L.diff(na, nb):
-        sig = classify_diff(d, ctx)
-        if ctx.get('dropped_sig') and d['path'] == u'' and d['kind'] == 'children' and d['nb'] == 0:
-            sig = ctx['dropped_sig']
+        sig = ctx.get('dropped_sig') or classify_diff(d, ctx)
         rep.add(sig, '%s%s: %s' % (what, d['path'], json.dumps(dict((k, v) for k, v in d.items() if k != 'path'), default=repr)[:300]))
 
 
@@ -203,7 +202,8 @@ def compare_doc(rep, src, out, folder, top):
         for f in sec[4]:
             if f[0] == 'E' and not contains(ofonts, f):
                 only_content = part == u'content.xml' and not (S.styles_fonts is not None and contains(S.styles_fonts[4], f))
-                sig = dropped.get(part) or ('content-only-font-face' if only_content else 'font-face-lost')
+                sig = dropped.get(part) or ('content-only-font-face' if only_content else
+                                            'subdocument-font-face-decls-dropped' if not top else 'font-face-lost')
                 rep.add(sig, '%s%s: font declaration %r not in the saved package' % (folder, part, L.attr(f, L.STYLENS, 'name')))
     # referenced automatic styles, each in its own part
     for part, auto, roots, oauto in ((u'content.xml', S.content_auto, [S.body], O.content_auto),
@@ -263,7 +263,7 @@ def compare_packages(src, out):
             rep.add(object_sig(p) or 'sub-document-lost', 'sub-document %r is not in the saved package' % p)
             continue
         if mt not in out.mdict[p]:
-            rep.add('sub-document-media-type', 'sub-document %r: media type %r saved as %r' % (p, mt, out.mdict[p]))
+            rep.add(object_sig(p) or 'sub-document-media-type', 'sub-document %r: media type %r saved as %r' % (p, mt, out.mdict[p]))
         sub = Report()
         compare_doc(sub, src, out, p, False)
         for sig, det in sub.items:
@@ -306,33 +306,153 @@ def sample_files():
     fs = []
     for pat in ('tests/examples/*.od?', 'examples/*.od?', 'samples/*.od?', '*.od?', 'odfimgimport/*.od?', 'contrib/odfsign/testdocs/*.od?'):
         fs += glob.glob(os.path.join(common.REPO, pat))
-    return sorted(set(fs))
+    return sorted(set(os.path.relpath(f, common.REPO) for f in fs))
 
 
-def run_package(chk, name, raw, verbose=False):
-    """oracle on one package; returns the report"""
+SHAPES = ('plain', 'objects', 'nested', 'objpics', 'gap', 'long', 'order')
+
+
+def build_case(recipe):
+    """recipe {'base': 'file:<path relative to the repository>' | 'syn:<shape>', 'mut': name|None, 'seed': int}
+    -> package bytes (None when the mutator does not apply)"""
+    import random
+    import loadmut as M
+    rng = random.Random(recipe['seed'])
+    if recipe['base'].startswith('file:'):
+        with open(os.path.join(common.REPO, recipe['base'][5:]), 'rb') as f:
+            raw = f.read()
+        if recipe.get('mut') is None:
+            return raw
+        spec = M.spec_of(L.read_pkg(raw))
+    else:
+        spec = M.synthetic(rng, recipe['base'][4:])
+    if recipe.get('mut'):
+        spec = dict(M.MUTATORS)[recipe['mut']](spec, rng)
+        if spec is None:
+            return None
+    return M.write(spec)
+
+
+def has_doctype(pkg):
+    return any(b'<!DOCTYPE' in pkg.data.get(n, b'') for n in pkg.names if n.endswith('.xml'))
+
+
+def rejected_values(pkg):
+    """(element, attribute, value) triples of loadmut.REJECTED present in the package's parts"""
+    import loadmut as M
+    hits = []
+    for n in pkg.names:
+        if n.split(u'/')[-1] in L.PARTS:
+            try:
+                t = L.parse_xml(pkg.data[n])
+            except Exception:
+                continue
+            for e in L.elems(t):
+                for (eq, aq, v) in M.REJECTED:
+                    if (e[1], e[2]) == eq and L.attr(e, aq[0], aq[1]) == v:
+                        hits.append((eq[1], aq[1], v))
+    return hits
+
+
+def run_package(raw):
+    """oracle on one package -> (report, saved bytes | None, loaded document | None, printed text)"""
     src = L.read_pkg(raw)
     saved, printed, exc, doc = roundtrip(raw)
     rep = Report()
     if exc is not None:
-        rep.add('load-raises', exc[:300])
-        return rep, None, None
+        rj = rejected_values(src)
+        if rj and exc.startswith('ValueError'):
+            rep.add('load-raises-on-schema-valid-value', '%s (package holds %r)' % (exc[:200], rj[:2]))
+        else:
+            rep.add('load-raises', exc[:300])
+        return rep, None, None, printed
     out = L.read_pkg(saved)
     rep = compare_packages(src, out)
-    return rep, saved, doc
+    return rep, saved, doc, printed
+
+
+def gen_cases(chk):
+    import loadmut as M
+    rng = chk.rng
+    files = sample_files()
+    names = [m for m, _ in M.MUTATORS]
+    cases = []
+    per_file = len(names) if chk.tier == 'thorough' else 4
+    # rotate through the mutators so that every one is used on several samples
+    order = list(names); rng.shuffle(order)
+    k = 0
+    for f in files:
+        cases.append({'base': 'file:' + f, 'mut': None, 'seed': rng.getrandbits(48)})
+        size = os.path.getsize(os.path.join(common.REPO, f))
+        n = per_file if size < 30000 or chk.tier == 'thorough' else 2
+        for _ in range(n):
+            cases.append({'base': 'file:' + f, 'mut': order[k % len(order)], 'seed': rng.getrandbits(48)}); k += 1
+    # the object mutator needs a sample with objects
+    for f in files:
+        if os.path.basename(f) in ('emb_spreadsheet.odp', 'spreadsheet-with-macro.ods'):
+            cases.append({'base': 'file:' + f, 'mut': 'object-renumber', 'seed': rng.getrandbits(48)})
+    nsyn = 6 if chk.tier == 'thorough' else 2
+    for shape in SHAPES:
+        for _ in range(nsyn):
+            cases.append({'base': 'syn:' + shape, 'mut': None, 'seed': rng.getrandbits(48)})
+    for m in names:
+        for _ in range(nsyn if chk.tier == 'thorough' else 1):
+            cases.append({'base': 'syn:' + rng.choice(['plain', 'plain', 'objects']), 'mut': m, 'seed': rng.getrandbits(48)})
+    return cases
 
 
 def run(chk, replay=None):
-    chk.rule = 'repository samples x mutators'
-    files = sample_files()
-    total = {}
-    for f in files:
-        raw = open(f, 'rb').read()
-        rep, saved, doc = run_package(chk, os.path.basename(f), raw)
+    chk.rule = ('every .od? package shipped in the repository, each also put through structure-preserving mutators '
+                '(prefix renaming/swapping, default namespace, declaration layout, manifest order, object numbering, extra '
+                'members, foreign attributes, fonts in content.xml only, names with blanks, CDATA, indentation) and synthetic '
+                'packages from the harness\' own serialiser; non-trivial = the package has a body with content')
+    if replay is not None:
+        raw = build_case(replay['input'])
+        rep, saved, doc, printed = run_package(raw)
+        bad = [x for x in rep.items if x[0] == replay.get('signature')] or rep.items
+        for sig, det in bad[:10]:
+            print('replay: %s :: %s' % (sig, det[:300]))
+        return 1 if bad else 0
+    cases = gen_cases(chk)
+    import c05 as _self
+    chk.prove(modules=['OdfModel.Props.C05'], drivers=['drv_load'])
+    drv = chk.driver('drv_load')
+    for rc in cases:
+        raw = build_case(rc)
+        if raw is None:
+            chk.count('mutator-not-applicable'); continue
+        src = L.read_pkg(raw)
+        if has_doctype(src):
+            chk.count('skipped:has-doctype (refused by design, C13)'); continue
+        rep, saved, doc, printed = run_package(raw)
+        # ---- correspondence 1: __fixXmlPart on the text of every part
+        fix_lines = []; fix_real = []
+        for n in src.names:
+            if n.split(u'/')[-1] in L.PARTS and len(src.data[n]) < (400000 if chk.tier == 'thorough' else 60000):
+                try:
+                    text = src.data[n].decode('utf-8')
+                except UnicodeDecodeError:
+                    continue
+                fix_lines.append('fixxml ' + enc_str(text)); fix_real.append((n, L.real_fix(text)))
+        for (n, want), ans in zip(fix_real, drv.batch(fix_lines)):
+            chk.corr(); chk.count('fixxml_parts')
+            if ans != 'ok ' + enc_str(want):
+                chk.corr_diff(dict(rc, part=n), want[:300], dec_str(ans[3:])[:300] if ans.startswith('ok ') else ans, '__fixXmlPart on the text of the part')
+            if want != src.data[n].decode('utf-8'):
+                chk.count('fixxml_changed_text')
+        # ---- correspondence 2: the recorded SAX streams through the model vs what load() built
+        if doc is not None and len(raw) < (10 ** 7 if chk.tier == 'thorough' else 45000):
+            for folder, real in sorted(doc._loaded_sections.items()):
+                L.correspond_document(chk, drv, src, folder, real, dict(rc, folder=folder))
+        chk.count('base:' + ('sample' if rc['base'].startswith('file:') else rc['base']))
+        chk.count('mut:' + str(rc['mut']))
+        body = L.sections_of(src).body
+        chk.case((rc['base'], rc['mut'], rc['seed']), nontrivial=body is not None and len(list(L.elems(body))) > 2,
+                 sample={'case': rc, 'findings': sorted(set(s for s, _ in rep.items))})
+        seen = set()
         for sig, det in rep.items:
-            total.setdefault(sig, []).append((os.path.basename(f), det))
-    for sig in sorted(total):
-        print(sig, len(total[sig]))
-        for x in total[sig][:4]:
-            print('    ', x[0], x[1][:260])
-    return 0
+            if sig in seen:
+                continue
+            seen.add(sig)
+            chk.fail(sig, rc, det)
+    return chk.finish()
